@@ -45,10 +45,12 @@ type genLine struct {
 // (seeded choice); the core set (<=1 write, <=1 injected frame, one end call) is always driven.
 func keepPermille(env *fw.Env, src string) uint64 {
 	if env.Tier == "thorough" {
-		return 250
+		return 150
 	}
 	return 70
 }
+
+var idClasses = []string{"long", "short", "nulmid", "nulfirst", "zero"}
 
 func expand(env *fw.Env, src string, raw json.RawMessage) []json.RawMessage {
 	var g genLine
@@ -60,7 +62,7 @@ func expand(env *fw.Env, src string, raw json.RawMessage) []json.RawMessage {
 	var out []json.RawMessage
 	switch g.Kind {
 	case "stream":
-		nw, ninj, nend, coll := 0, 0, 0, false
+		nw, ninj, nend, coll, nul := 0, 0, 0, false, false
 		for _, o := range g.Script {
 			switch o.Op {
 			case "write":
@@ -68,6 +70,7 @@ func expand(env *fw.Env, src string, raw json.RawMessage) []json.RawMessage {
 			case "inj":
 				ninj++
 				coll = coll || o.K == "fds" || o.K == "fes"
+				nul = nul || o.K == "fdn" || o.K == "fen"
 			default:
 				nend++
 			}
@@ -77,9 +80,12 @@ func expand(env *fw.Env, src string, raw json.RawMessage) []json.RawMessage {
 		if !core && !sim && h%1000 >= keepPermille(env, src) {
 			return nil
 		}
-		idks := []string{[]string{"long", "short"}[(h>>10)%2]}
+		idks := []string{idClasses[(h>>10)%uint64(len(idClasses))]}
 		if core && coll {
 			idks = []string{"long", "short"}
+		}
+		if core && nul { // ids that agree up to a NUL byte: every id class
+			idks = idClasses
 		}
 		start := []string{"live", "late"}[(h>>11)%2]
 		for _, idk := range idks {
@@ -102,6 +108,23 @@ func expand(env *fw.Env, src string, raw json.RawMessage) []json.RawMessage {
 	case "rt":
 		for _, ch := range []string{"all", "one"} {
 			out = append(out, fw.MustJSON(decBeh{Kind: "rt", Len: g.Len, Ty: g.Ty, Chunk: ch, Salt: salt}))
+		}
+	case "listener":
+		var l struct {
+			Dsz  string   `json:"dsz"`
+			Cuts []string `json:"cuts"`
+		}
+		if err := json.Unmarshal(raw, &l); err != nil {
+			panic(err)
+		}
+		dszs := []string{l.Dsz}
+		if l.Dsz == "many" {
+			dszs = []string{"small", "big"}
+		}
+		for _, d := range dszs {
+			// no cut: everything is in the socket before the listener reads (the sharpest case)
+			pre := len(l.Cuts) == 0 || (h>>12)%2 == 0
+			out = append(out, fw.MustJSON(listenerBeh{Kind: "listener", Dsz: d, Cuts: l.Cuts, Pre: pre, Salt: salt}))
 		}
 	case "fwd":
 		out = append(out, fw.MustJSON(fwdBeh{Kind: "fwd", Pat: g.Pat, Req: g.Req, Resp: g.Resp, Idk: []string{"long", "short"}[(h>>10)%2], Salt: salt}))
@@ -136,6 +159,14 @@ func drive(env *fw.Env, b fw.Behaviour) *fw.Trace {
 			return driveDec(env, &db)
 		}
 		return driveRt(env, &db)
+	case "listener":
+		var lb listenerBeh
+		if err := json.Unmarshal(b.Data, &lb); err != nil {
+			return &fw.Trace{Status: fw.DriverError, Note: err.Error()}
+		}
+		quiet.RLock()
+		defer quiet.RUnlock()
+		return driveListener(env, &lb)
 	case "fwd":
 		var fb fwdBeh
 		if err := json.Unmarshal(b.Data, &fb); err != nil {
@@ -243,6 +274,18 @@ func selfTest(env *fw.Env, accepted []*fw.Trace) []*fw.Trace {
 			c := next(t)
 			c.Events[i]["eq"] = false
 			out = append(out, c)
+		case "listener":
+			i := find(t, "LD", func(e fw.Event) bool { return e["sent"].(int) > 0 })
+			if i < 0 || done["listener"] >= 2 {
+				continue
+			}
+			done["listener"]++
+			c := next(t) // the first byte behind the frame was swallowed
+			c.Events[i]["len"] = c.Events[i]["len"].(int) - 1
+			out = append(out, c)
+			c = next(t)
+			c.Events[i]["eq"] = false
+			out = append(out, c)
 		case "fwd":
 			i := find(t, "FD", func(e fw.Event) bool { return e["sent"].(int) > 0 })
 			if i < 0 || done["fwd"] >= 2 {
@@ -269,16 +312,20 @@ func main() {
 		ID:        "C10",
 		DesignRef: "DESIGN.md §5 C10",
 		ModelJobs: func(env *fw.Env) []fw.TLCJob {
-			// quick: <=2 writes (0.27M states, ~4-12 s); thorough: <=4 writes (20M states, ~3-4 min on 16 cores)
-			w, ws := "2", "2"
+			// quick: <=2 writes, one injected kind per id relation / frame type (fd/fdn and fe/fen behave
+			// alike in the model: both header fields differ from ours): 0.27M states, 4-30 s.
+			// thorough: <=3 writes, all seven kinds (4.5M states, 40-250 s depending on machine load) and
+			// the strict clauses without colliding ids (2.2M states). <=4 writes (20M states, 3.5-11 min)
+			// passes too but does not fit the thorough budget on a loaded machine; scripts with 4 writes
+			// are driven from the -simulate job.
+			jobs := []fw.TLCJob{{Name: "mc:CrossFrame_mc.cfg(W=2)", Module: "CrossFrame", Cfg: "CrossFrame_mc.cfg",
+				Consts: map[string]string{"MAXW": "2", "INJ": `{"fd", "fds", "fen", "fes", "unk"}`}}}
 			if env.Tier == "thorough" {
-				w, ws = "4", "3"
-			}
-			jobs := []fw.TLCJob{
-				{Name: "mc:CrossFrame_mc.cfg(W=" + w + ")", Module: "CrossFrame", Cfg: "CrossFrame_mc.cfg", Consts: map[string]string{"MAXW": w}, Timeout: 14 * time.Minute},
-			}
-			if env.Tier == "thorough" { // strict clauses without colliding ids (quick tier: left out to keep its wall time under load)
-				jobs = append(jobs, fw.TLCJob{Name: "mc:CrossFrame_strict.cfg(W=" + ws + ")", Module: "CrossFrame", Cfg: "CrossFrame_strict.cfg", Consts: map[string]string{"MAXW": ws}})
+				jobs = []fw.TLCJob{
+					{Name: "mc:CrossFrame_mc.cfg(W=3,all kinds)", Module: "CrossFrame", Cfg: "CrossFrame_mc.cfg",
+						Consts: map[string]string{"MAXW": "3", "INJ": `{"fd", "fdn", "fds", "fe", "fen", "fes", "unk"}`}, Timeout: 14 * time.Minute},
+					{Name: "mc:CrossFrame_strict.cfg(W=3)", Module: "CrossFrame", Cfg: "CrossFrame_strict.cfg", Consts: map[string]string{"MAXW": "3"}, Timeout: 14 * time.Minute},
+				}
 			}
 			return jobs
 		},
@@ -292,10 +339,13 @@ func main() {
 					Simulate: fmt.Sprintf("num=%d", n), Depth: 40, Seed: env.Seed,
 					Consts: map[string]string{"MAXW": "4", "MAXI": "2"}}
 			}
+			// the listener hand-over model is tiny: one run checks its invariants exhaustively and prints its behaviours
+			lst := fw.TLCJob{Name: "mc+gen:CrossFrameListener", Module: "CrossFrameListener", Cfg: "CrossFrameListener.cfg", Workers: 2,
+				Consts: map[string]string{"EMIT": "TRUE"}}
 			if env.Tier == "thorough" {
-				return []fw.TLCJob{gen(2, 2), gen(3, 1), sim(6000)}
+				return []fw.TLCJob{gen(2, 2), gen(3, 1), sim(6000), lst}
 			}
-			return []fw.TLCJob{gen(2, 1), sim(400)}
+			return []fw.TLCJob{gen(2, 1), sim(400), lst}
 		},
 		Expand:      expand,
 		Drive:       drive,
